@@ -25,14 +25,21 @@ type Shape struct {
 	Share bool
 	// Decl selects how leaf fields are declared: "" one name per declaration,
 	// "u" grouped with an unexported name first ("u0, F0 int32"), "g" grouped
-	// with the unexported name last ("F0, u0 int32").  Signature prefix "^u" /
+	// with the unexported name last ("F0, u0 int32"), "n" ordinary declarations
+	// followed by other code (see Source).  Signature prefix "^u" /
 	// "^g".  The unexported names are not columns.
 	Decl string
+	// External: the struct types live in a package of their own and the code
+	// is generated with parquetgen -import.  Signature prefix "@".
+	External bool
 }
 
 // Sig renders the signature: leaves r/o/p, groups R(...)/O(...)/P(...).
 func (s *Shape) Sig() string {
 	var sb strings.Builder
+	if s.External {
+		sb.WriteByte('@')
+	}
 	if s.Decl != "" {
 		sb.WriteString("^" + s.Decl)
 	}
@@ -63,7 +70,14 @@ func (f *Field) sig(sb *strings.Builder) {
 
 // ParseSig parses a signature back into a shape.
 func ParseSig(sig string) (*Shape, error) {
-	if strings.HasPrefix(sig, "^u") || strings.HasPrefix(sig, "^g") {
+	if strings.HasPrefix(sig, "@") {
+		s, err := ParseSig(sig[1:])
+		if err == nil {
+			s.External = true
+		}
+		return s, err
+	}
+	if strings.HasPrefix(sig, "^u") || strings.HasPrefix(sig, "^g") || strings.HasPrefix(sig, "^n") {
 		s, err := ParseSig(sig[2:])
 		if err == nil {
 			s.Decl = sig[1:2]
@@ -198,6 +212,37 @@ func (s *Shape) Source(pkg string) string {
 		}
 	}
 	rec("T", s.Fields)
+	if s.Decl == "n" {
+		// the input file holds more than the struct: constants, variables, an
+		// interface, an unrelated struct, a method and a function whose bodies
+		// declare LOCAL types with the names of the package-level ones
+		decls = append(decls, `const noiseConst = 3
+
+var noiseVar = []string{"a"}
+
+type noiseIface interface{ M() int }
+
+type Unrelated struct {
+	X map[string]int
+	Y int32
+}
+
+func (t T) M() int {
+	type T struct{ Z string }
+	var x T
+	_ = x
+	return noiseConst
+}
+
+func noiseFunc() noiseIface {
+	type T1 struct{ Q bool }
+	type T2 struct{}
+	_, _ = T1{}, T2{}
+	_ = noiseVar
+	return T{}
+}
+`)
+	}
 	return "package " + pkg + "\n\n" + strings.Join(decls, "\n")
 }
 
